@@ -1,7 +1,8 @@
 #!/usr/bin/env python3
 """rs2lean.py — translate the pure sizing / hash / constant core of abyssiniandb to Lean 4.
 
-usage: rs2lean.py <repo> <outdir>      (writes <outdir>/Consts.lean, Funcs.lean, FileOps.lean, Engine.lean, FlushOps.lean)
+usage: rs2lean.py <repo> <outdir>      (writes <outdir>/Consts.lean, Funcs.lean, FileOps.lean, Engine.lean, FlushOps.lean,
+                                        ApiOps.lean)
 
 The translator accepts a small, fixed Rust subset (see DESIGN.md §3.2) and FAILS LOUDLY
 (exit 2, message with file and construct) on anything else.  Integers become `Nat`;
@@ -61,9 +62,21 @@ built (IO_OPEN: the statements in front of `let file_length …` are compared to
 local cache struct around the file, IO_CACHE_CTORS; the handle `Self(Rc::new(RefCell::new(c)))` is the data of `c`;
 `let buckets_size = match params.buckets_size { … }` is `bucketsOf p`); `FileDbXxxInner::open_with_params` -> `openMap`
 (`emit_open_map`: the three opens, their order and the struct literal with `dirty: true` pinned by shape).
+Seventh batch: the generic API wrappers (lib.rs: the default methods of `trait DbXxx<KT>`: `get`, `put`, `delete`,
+`includes_key`, `bulk_get`, `bulk_put`, `bulk_delete`, `put_from_iter`, the `…_string` variants -> ApiOps.lean, class EmitApi,
+list `API_FUNCS`, monad `Abyss.ApiM σ` over an abstract map with the four object-safe calls as the parameter `ops : KtOps σ`;
+a small typed subset: `while let Some(x) = v.pop()` = a fuel loop over `ApiM.pop`, `for p in v`, `push`, `Vec::new()`,
+`.iter().enumerate().map(|(i, &a)| (i, a)).collect()`, `.iter().map(|a| e).collect()`, closures on `Option` / on the `Result`
+in last position; the descending sort by key is a function PARAMETER `sortDesc` / `sortDescPairs` (only `Perm` is assumed of
+it), the stable sort by index is `ApiM.sortByIdx`, `String::from_utf8_lossy(..).to_string()` is the parameter `lossy`;
+signatures, `where` clauses, the four declarations of `DbXxxObjectSafe<KT>` and the empty `impl DbXxx<KT> for FileDbMap<KT> {}`
+pinned) and the database-level sync (inner/mod.rs `FileDbInner::{applay_all, sync_all, sync_data}` -> `dbApplyAll`,
+`dbSyncAll`, `dbSyncData` in FlushOps.lean, monad `Abyss.DbRegM μ` over the five registries, `emit_dbsync`: the five blocks,
+their order and their shape pinned; the struct, the `db_map_<k>` lookups, the aliases `FileDbMapDb…`, the handle
+`FileDbMap<KT>` and the `sync_all` / `sync_data` wrappers of `FileDbMap<KT>` and `FileDb` pinned token-wise).
 When the translation fails, Funcs.lean (and FileOps.lean, Engine.lean; FileOps.lean and Engine.lean when the I/O
-stage failed, Engine.lean alone when only the engine stage failed; every time FlushOps.lean, which alone is replaced when
-only the flush stage failed) is replaced by a file that does not build.
+stage failed, Engine.lean alone when only the engine stage failed; FlushOps.lean unless only the API stage failed; every time
+ApiOps.lean, the last stage) is replaced by a file that does not build.
 Python 3 standard library only.
 """
 import re
@@ -142,6 +155,7 @@ class P:
         self.dropped = []             # statements left out because their `#[cfg(..)]` is false
         self.kept = []                # statements with a `#[cfg(..)]` that is true
         self.last_cfg = []            # texts of the cfg attributes read by the last `attrs()`
+        self.api = False              # API wrappers of lib.rs (EmitApi): `while let P = e { … }` is parsed
 
     def peek(self, k=0):
         return self.t[self.i + k] if self.i + k < len(self.t) else ("eof", "")
@@ -234,6 +248,8 @@ class P:
                 depth += 1
             if v in (">", "]", ")"):
                 depth -= 1
+            if v == ">>":               # `Vec<Option<Vec<u8>>>`: the tokenizer reads `>>` as one token
+                depth -= 2
             s += v
             self.next()
         return s
@@ -304,7 +320,15 @@ class P:
             # only the imperative I/O subset (EmitIO) translates it; Emit.seq rejects it
             self.next()
             if self.at("let"):
-                fail(self.where + ": `while let` is outside the supported subset")
+                if not self.api:
+                    fail(self.where + ": `while let` is outside the supported subset")
+                # API wrappers (EmitApi): `while let P = e { … }`
+                self.next()
+                pat = self.pattern()
+                self.expect("=")
+                scrut = self.expr(no_struct=True)
+                body = self.block()
+                return ("whilelet", pat, scrut, body)
             c = self.expr(no_struct=True)
             body = self.block()
             return ("while", c, body)
@@ -5274,13 +5298,144 @@ def emit_flushops(repo, feats, out, done, methods):
     texts.append("/-- %s: `self.dirty = true;` is the first statement of the `Some` branch of `if let Some(..) = opt` (`opt` = "
                  "`self.find_in_hash_buckets_kt(hash, key_kt)?`): a `delete` of an absent key does not raise the flag (it writes "
                  "nothing) -/\ndef delSetsDirtyOnlyWhenFound : Bool := true\n" % dele.src)
+    texts += emit_dbsync(repo, feats, methods)
     with open(os.path.join(out, "FlushOps.lean"), "w") as fh:
         fh.write("import Abyss.FlushM\n")
         fh.write(FL_HEADER)
-        fh.write("namespace Abyss.Gen\nopen Abyss (FlushM FilePrims)\n\n")
+        fh.write("namespace Abyss.Gen\nopen Abyss (FlushM FilePrims MapSt MapAct DbRegM RegKind)\n\n")
         fh.write("\n".join(texts))
         fh.write("\nend Abyss.Gen\n")
     return len(texts)
+
+
+# the database object (src/filedb/inner/mod.rs `FileDbInner`): registry, key type, file of the key type; in the order in which
+# `applay_all` must visit them (the order of the hand model `Abyss/DbSync.lean` and of `DbReg.all`)
+DB_KINDS = [("bytes", "DbBytes", "kt_dbbytes.rs"), ("string", "DbString", "kt_dbstring.rs"), ("i64", "DbI64", "kt_dbi64.rs"),
+            ("u64", "DbU64", "kt_dbu64.rs"), ("vu64", "DbVu64", "kt_dbvu64.rs")]
+DB_IMPL = "impl FileDbInner"
+DB_APPLY_SIG = "fn applay_all<F>(&self, func: F) -> Result<()> where F: Fn(&mut dyn DbXxxBase) -> Result<()>,"
+DB_SUBSET = ("`{ let keys: Vec<_> = self.db_<k>_map.keys().cloned().collect(); for a in keys { let mut b = self.db_map_<k>(&a).unwrap(); "
+             "func(&mut b)?; } }`")
+
+
+def emit_dbsync(repo, feats, methods):
+    """`FileDbInner::{applay_all, sync_all, sync_data}` -> `dbApplyAll`, `dbSyncAll`, `dbSyncData` (texts for FlushOps.lean)"""
+    # ---- what the statements mean
+    io_pin_tokens(repo, IO_MOD, "pub struct FileDbInner",
+                  "#[derive(Debug)] pub struct FileDbInner { %s path: PathBuf, }"
+                  % " ".join("db_%s_map: BTreeMap<String, FileDbMap%s>," % (k, t) for k, t, _f in DB_KINDS), "the struct `FileDbInner`")
+    io_pin_tokens(repo, API_DBMAP, "pub struct FileDbMap",
+                  "#[derive(Debug, Clone)] pub struct FileDbMap<KT: DbMapKeyType>(Rc<RefCell<FileDbXxxInner<KT>>>);",
+                  "the map handle `FileDbMap<KT>` (a clone of it is the same map)")
+    io_pin_tokens(repo, IO_MOD_RS, "pub struct FileDb", "#[derive(Debug, Clone)] pub struct FileDb(Rc<RefCell<FileDbInner>>);",
+                  "the database handle `FileDb`")
+    for k, t, f in DB_KINDS:
+        io_pin_tokens(repo, "src/filedb/dbmap/" + f, "pub type FileDbMap" + t, "pub type FileDbMap%s = FileDbMap<%s>;" % (t, t),
+                      "the alias `FileDbMap%s`" % t)
+        fl_pin_method(repo, feats, methods, IO_MOD, DB_IMPL, "db_map_" + k,
+                      "fn db_map_%s(&self, name: &str) -> Option<FileDbMap%s> { self.db_%s_map.get(name).cloned() }" % (k, t, k))
+    for m in ("sync_all", "sync_data"):
+        # `o.sync_all()` for `o: &mut dyn DbXxxBase` a map handle; `FileDb::sync_all` on top
+        fl_pin_method(repo, feats, methods, API_DBMAP, "impl<KT: DbMapKeyType> DbXxxBase for FileDbMap<KT>", m,
+                      "fn %s(&mut self) -> Result<()> { RefCell::borrow_mut(&self.0).%s() }" % (m, m))
+        fl_pin_method(repo, feats, methods, IO_MOD_RS, "impl FileDb", m,
+                      "fn %s(&self) -> Result<()> { RefCell::borrow_mut(&self.0).%s() }" % (m, m))
+    texts = []
+    # ---- `applay_all`
+    where = "%s::<%s>::applay_all" % (IO_MOD, DB_IMPL)
+    cands = methods[(IO_MOD, DB_IMPL)].get("applay_all", [])
+    if len(cands) != 1:
+        fail("%s: %d definitions with a true `#[cfg]` (exactly one expected)" % (where, len(cands)))
+    toks = cands[0][0]
+    tv = [v for _k, v in toks]
+    ib = tv.index("{")
+    if tv[:ib] != [v for _k, v in tokenize(DB_APPLY_SIG)]:
+        fail("%s: the signature is `%s`, the translation is configured for `%s`" % (where, " ".join(tv[:ib]), DB_APPLY_SIG))
+    pp = P(toks[ib:], feats, where)
+    pp.keep_try = True
+    body = pp.block()
+    if pp.i != len(toks) - ib or pp.dropped or pp.kept:
+        fail("%s: tokens after the body / `#[cfg]` statements" % where)
+    if body[2] != ("call", ["Ok"], [("tuple", [])]):
+        fail("%s: the body does not end with `Ok(())`" % where)
+    lines, kinds = [], []
+    for n, st in enumerate(body[1]):
+        blk = st[1] if (st[0] == "expr" and st[1][0] == "block") else None
+        if blk is None or blk[2] is not None or len(blk[1]) != 2:
+            fail("%s: statement %d is not a block of the shape %s" % (where, n + 1, DB_SUBSET))
+        l, f = blk[1]
+        m = re.match(r"^db_([a-z0-9]+)_map$", l[3][1][1][1][2]) if (
+            l[0] == "let" and l[1][0] == "pvar" and l[2] == "Vec<_>" and l[3][0] == "mcall" and l[3][2] == "collect" and not l[3][3]
+            and l[3][1][0] == "mcall" and l[3][1][2] == "cloned" and not l[3][1][3]
+            and l[3][1][1][0] == "mcall" and l[3][1][1][2] == "keys" and not l[3][1][1][3]
+            and l[3][1][1][1][0] == "field" and l[3][1][1][1][1] == ("path", ["self"])) else None
+        if m is None:
+            fail("%s: block %d: the first statement is not `let keys: Vec<_> = self.db_<k>_map.keys().cloned().collect();`" % (where, n + 1))
+        k, keys = m.group(1), l[1][1]
+        if k not in [x[0] for x in DB_KINDS]:
+            fail("%s: block %d: unknown registry `db_%s_map`" % (where, n + 1, k))
+        if not (f[0] == "for" and f[1][0] == "pvar" and f[2] == ("path", [keys]) and f[3][2] is None and len(f[3][1]) == 2):
+            fail("%s: block %d: the second statement is not `for a in %s { … two statements … }`" % (where, n + 1, keys))
+        a = f[1][1]
+        s1, s2 = f[3][1]
+        if not (s1[0] == "let" and s1[1][0] == "pvar" and s1[2] is None
+                and s1[3] == ("mcall", ("mcall", ("path", ["self"]), "db_map_" + k, [("path", [a])]), "unwrap", [])):
+            fail("%s: block %d: the first statement of the loop is not `let mut b = self.db_map_%s(&%s).unwrap();`" % (where, n + 1, k, a))
+        b = s1[1][1]
+        if s2 != ("expr", ("try", ("call", ["func"], [("path", [b])]))):
+            fail("%s: block %d: the second statement of the loop is not `func(&mut %s)?;` (an error of `func` must leave "
+                 "`applay_all` at once)" % (where, n + 1, b))
+        kinds.append(k)
+        loop = "dbApplyAllLoop%d" % (n + 1)
+        texts.append("/-- block %d of `applay_all`: the loop `for %s in %s { let mut %s = self.db_map_%s(&%s).unwrap(); func(&mut %s)?; }` "
+                     "(structurally recursive on the list of names; `DbRegM.handle`: the `unwrap` of the lookup; `DbRegM.call`: the "
+                     "call on the map behind the handle, `?`) -/\n"
+                     "def %s {μ : Type} (func : MapAct μ) : List String → DbRegM μ Unit\n"
+                     "  | [] => pure ()\n"
+                     "  | %s :: loopRest => do\n"
+                     "    let %s ← DbRegM.handle .%s %s\n"
+                     "    DbRegM.call func %s\n"
+                     "    %s func loopRest\n"
+                     % (n + 1, a, keys, b, k, a, b, loop, io_ident(a), io_ident(b), k, io_ident(a), io_ident(b), loop))
+        lines += ["let %s ← DbRegM.keys .%s" % (io_ident(keys), k), "%s func %s" % (loop, io_ident(keys))]
+    if kinds != [x[0] for x in DB_KINDS]:
+        fail("%s: the blocks visit the registries %s, the translation (and the hand model Abyss/DbSync.lean) is configured for the "
+             "order %s" % (where, kinds, [x[0] for x in DB_KINDS]))
+    texts.append("/-- %s `%s`, `fn applay_all` (`func: F`, `F: Fn(&mut dyn DbXxxBase) -> Result<()>`, is `func : MapAct μ`): five blocks in "
+                 "the order bytes, string, i64, u64, vu64 (pinned), each `let keys: Vec<_> = self.db_<k>_map.keys().cloned().collect();` "
+                 "(`DbRegM.keys .<k>`: the names in the order of the `BTreeMap`, ascending) and the loop over them; the first `Err` of "
+                 "`func` is the value (the maps visited before keep what `func` did to them, the failing one too, the others are not "
+                 "visited) -/\ndef dbApplyAll {μ : Type} (func : MapAct μ) : DbRegM μ Unit := do\n%s\n"
+                 % (IO_MOD, DB_IMPL, "\n".join(ind(lines + ["pure ()"]))))
+    # ---- `sync_all`, `sync_data`
+    acts = dict(FL_FUNCS)
+    for rust, lean in (("sync_all", "dbSyncAll"), ("sync_data", "dbSyncData")):
+        where = "%s::<%s>::%s" % (IO_MOD, DB_IMPL, rust)
+        cands = methods[(IO_MOD, DB_IMPL)].get(rust, [])
+        if len(cands) != 1:
+            fail("%s: %d definitions with a true `#[cfg]` (exactly one expected)" % (where, len(cands)))
+        toks = cands[0][0]
+        recv, params, ret, ib = io_parse_sig(toks, where)
+        if recv != "&self" or params or ret != "Result<()>":
+            fail("%s: signature is not `(&self) -> Result<()>`" % where)
+        pp = P(toks[ib:], feats, where)
+        pp.keep_try = True
+        body = pp.block()
+        if pp.i != len(toks) - ib or pp.dropped or pp.kept:
+            fail("%s: tokens after the body / `#[cfg]` statements" % where)
+        t = body[2]
+        if not (not body[1] and t is not None and t[0] == "mcall" and t[1] == ("path", ["self"]) and t[2] == "applay_all"
+                and len(t[3]) == 1 and t[3][0][0] == "closure" and len(t[3][0][1]) == 1 and t[3][0][1][0][0] == "pvar"
+                and t[3][0][2][0] == "mcall" and t[3][0][2][1] == ("path", [t[3][0][1][0][1]]) and not t[3][0][2][3]
+                and t[3][0][2][2] in acts):
+            fail("%s: the body is not `self.applay_all(|o| o.<flush|sync_all|sync_data>())`" % where)
+        m = t[3][0][2][2]
+        texts.append("/-- %s `%s`, `fn %s`: `self.applay_all(|o| o.%s())`; `o.%s()` on a map handle (`FileDbMap<KT>`: "
+                     "`RefCell::borrow_mut(&self.0).%s()`, pinned) is `%s` above, as an action on (map, fault counter of its files); "
+                     "`FileDb::%s` is `RefCell::borrow_mut(&self.0).%s()` (pinned) -/\n"
+                     "def %s {β : Type} (p : FilePrims β) : DbRegM (MapSt β × Nat) Unit := do\n  dbApplyAll (FlushM.onMap (%s p))\n"
+                     % (IO_MOD, DB_IMPL, rust, m, m, m, acts[m], rust, rust, lean, acts[m]))
+    return texts
 
 
 FL_HEADER = """/-! GENERATED by tools/rs2lean.py from /repo — do not edit.
@@ -5300,6 +5455,18 @@ Statement by statement:
 * `dirtyAtOpen`: the literal of `dirty:` in the `Ok(Self { … })` of `FileDbXxxInner::open_with_params`.
 * `putSetsDirty`, `delSetsDirtyOnlyWhenFound`: where the statement `self.dirty = true;` (left out of Engine.lean) stands
   in `put_kt` / `del_kt`; the translation fails when it stands elsewhere.
+* the database object (src/filedb/inner/mod.rs `impl FileDbInner`: `applay_all`, `sync_all`, `sync_data`) in
+  `Abyss.DbRegM μ` (Abyss/FlushM.lean): state = the five registries `db_<k>_map: BTreeMap<String, FileDbMap<…>>` of
+  `FileDbInner` (struct pinned) as association lists in ascending name order (`DbReg μ`; `BTreeMap::keys()` iterates in
+  ascending key order), `μ` the state of one map; failure = `Err` / panic, the state reached so far is kept.
+  `applay_all` must consist of five blocks, for `<k>` = bytes, string, i64, u64, vu64 IN THIS ORDER (the translation fails
+  otherwise), each `{ let keys: Vec<_> = self.db_<k>_map.keys().cloned().collect(); for a in keys { let mut b =
+  self.db_map_<k>(&a).unwrap(); func(&mut b)?; } }`: `DbRegM.keys .<k>`, then a function structurally recursive on the
+  names with `DbRegM.handle .<k> a` (`db_map_<k>` = `self.db_<k>_map.get(name).cloned()`, pinned: a clone of the
+  `Rc<RefCell<…>>` handle, i.e. the map itself; `None.unwrap()` = failure) and `DbRegM.call func b` (what `func` does to
+  the map is done to the entry of the registry; `?`).  `sync_all` / `sync_data` = `self.applay_all(|o| o.sync_all())`:
+  `o.sync_all()` on a handle is `mapSyncAll` (the wrappers `impl DbXxxBase for FileDbMap<KT>` and `FileDb::sync_all` are
+  pinned), as an action on (map, fault counter) (`FlushM.onMap`).
 -/
 """
 
@@ -5501,6 +5668,696 @@ def listSetSnd : List (Nat × Nat) → Nat → Nat → List (Nat × Nat)
 
 """
 
+# ----------------------------------------------------------------------------- generic API wrappers (lib.rs `trait DbXxx<KT>`)
+# the default methods of `trait DbXxx<KT>` -> Abyss/Gen/ApiOps.lean, monad `Abyss.ApiM σ` (Abyss/ApiM.lean) over an abstract
+# map state `σ`, parametrised by the four object-safe calls (`KtOps σ`)
+API_LIB = "src/lib.rs"
+API_TRAIT = "pub trait DbXxx<KT: DbMapKeyType>: DbXxxObjectSafe<KT>"
+API_OBJSAFE = "pub trait DbXxxObjectSafe<KT: DbMapKeyType>: DbXxxBase"
+API_DBMAP = "src/filedb/dbmap/mod.rs"
+API_WHERE = {"<'a, Q>": "where KT: From<&'a Q>, Q: Ord + ?Sized,", "<T>": "where T: Iterator<Item = (KT, Vec<u8>)>,"}
+# type tags: "Q" a borrowed key `&'a Q`, "K" a key `KT`, "B" bytes (`&[u8]`, `Vec<u8>`), "S" a `String` / `&str` (its UTF-8
+# bytes): all four are `List Nat`; "N" `usize`; "U" `()`; "Bool"; ("opt", t); ("list", t); ("pair", a, b); ("var", n)
+API_TVARS = {"<'a, Q>": {}, "<T>": {"T": ("list", ("pair", "K", "B"))}}          # `T: Iterator<Item = (KT, Vec<u8>)>`: the items in order
+# the object-safe calls: Rust name -> (field of `KtOps`, pinned declaration, parameter types, value type)
+API_PRIMS = {
+    "get_kt": ("getKt", "fn get_kt(&mut self, key: &KT) -> Result<Option<Vec<u8>>>;", ["K"], ("opt", "B")),
+    "put_kt": ("putKt", "fn put_kt(&mut self, key: &KT, value: &[u8]) -> Result<()>;", ["K", "B"], "U"),
+    "del_kt": ("delKt", "fn del_kt(&mut self, key: &KT) -> Result<Option<Vec<u8>>>;", ["K"], ("opt", "B")),
+    "includes_key_kt": ("includesKt", "fn includes_key_kt(&mut self, key: &KT) -> Result<bool>;", ["K"], "Bool"),
+}
+# translated in this order (a callee before its callers)
+API_FUNCS = [("get", "apiGet"), ("put", "apiPut"), ("delete", "apiDelete"), ("includes_key", "apiIncludesKey"),
+             ("bulk_get", "apiBulkGet"), ("bulk_put", "apiBulkPut"), ("bulk_delete", "apiBulkDelete"),
+             ("put_from_iter", "apiPutFromIter"),
+             ("get_string", "apiGetString"), ("put_string", "apiPutString"), ("delete_string", "apiDeleteString"),
+             ("bulk_get_string", "apiBulkGetString"), ("bulk_put_string", "apiBulkPutString"),
+             ("bulk_delete_string", "apiBulkDeleteString")]
+# function parameters of the generated functions, in this order after `ops`
+API_EXTRA = [("sortDesc", "List (Nat × List Nat) → List (Nat × List Nat)"),
+             ("sortDescPairs", "List (List Nat × List Nat) → List (List Nat × List Nat)"),
+             ("lossy", "List Nat → List Nat")]
+API_RESERVED = ("ops", "fuel", "loopRest", "sortDesc", "sortDescPairs", "lossy", "σ")
+
+
+def api_type(text, where, tvars):
+    """a Rust type (token texts or their concatenation) -> type tag"""
+    ts = []
+    for _k, v in tokenize(text) if isinstance(text, str) else [(None, x) for x in text]:
+        ts += [">", ">"] if v == ">>" else [v]
+    pos = [0]
+
+    def peek():
+        return ts[pos[0]] if pos[0] < len(ts) else None
+
+    def nxt():
+        pos[0] += 1
+        return ts[pos[0] - 1] if pos[0] <= len(ts) else None
+
+    def expect(v):
+        if nxt() != v:
+            fail("%s: type `%s` is outside the subset of the API wrappers" % (where, "".join(ts)))
+
+    def ty():
+        v = nxt()
+        if v == "&":
+            if peek() == "'":
+                nxt()
+                nxt()
+            return ty()
+        if v == "(":
+            if peek() == ")":
+                nxt()
+                return "U"
+            a = ty()
+            expect(",")
+            b = ty()
+            if peek() == ",":
+                nxt()
+            expect(")")
+            return ("pair", a, b)
+        if v == "[":
+            e = ty()
+            expect("]")
+            return "B" if e == "u8" else ("list", e)
+        if v in ("Vec", "Option"):
+            expect("<")
+            e = ty()
+            expect(">")
+            if v == "Vec":
+                return "B" if e == "u8" else ("list", e)
+            return ("opt", e)
+        if v in tvars:
+            return tvars[v]
+        simple = {"usize": "N", "u8": "u8", "bool": "Bool", "String": "S", "str": "S", "Q": "Q", "KT": "K"}
+        if v in simple:
+            return simple[v]
+        fail("%s: type `%s` is outside the subset of the API wrappers (at `%s`)" % (where, "".join(ts), v))
+
+    t = ty()
+    if pos[0] != len(ts) or "u8" in repr(t):
+        fail("%s: type `%s` is outside the subset of the API wrappers" % (where, "".join(ts)))
+    return t
+
+
+def api_parse_sig(toks, where):
+    """tokens `fn name <generics> ( &mut self , a : T , … ) -> Result<R> where … {` of a default method of `trait DbXxx<KT>`:
+    ([(parameter, type tag)], type tag of R, index of the body `{`); the generics and the `where` clause must be one of
+    the two configured ones (`<'a, Q>` with `KT: From<&'a Q>`: a borrowed key that converts into `KT`; `<T>`: an iterator of
+    `(KT, Vec<u8>)`)"""
+    tv = [v for _k, v in toks]
+    i = 2
+    gen = None
+    for g in API_WHERE:
+        gt = [v for _k, v in tokenize(g)]
+        if tv[i:i + len(gt)] == gt:
+            gen, i = g, i + len(gt)
+    if gen is None or tv[i:i + 4] != ["(", "&", "mut", "self"]:
+        fail("%s: the signature does not start with `fn name<'a, Q>(&mut self` / `fn name<T>(&mut self`" % where)
+    i += 4
+    params = []
+    while tv[i] != ")":
+        if tv[i] == ",":
+            i += 1
+            continue
+        name = tv[i]
+        if toks[i][0] != "id" or tv[i + 1] != ":":
+            fail("%s: unsupported parameter at `%s`" % (where, name))
+        i += 2
+        ty, depth = [], 0
+        while not (depth == 0 and tv[i] in (",", ")")):
+            depth += (tv[i] in ("<", "(", "[")) - (tv[i] in (">", ")", "]")) - 2 * (tv[i] == ">>")
+            ty.append(tv[i])
+            i += 1
+        params.append((name, api_type(ty, "%s, parameter `%s`" % (where, name), API_TVARS[gen])))
+    i += 1
+    if tv[i] != "->":
+        fail("%s: no return type" % where)
+    i += 1
+    j = i
+    while tv[j] not in ("where", "{"):
+        j += 1
+    ret = []
+    for v in tv[i:j]:
+        ret += [">", ">"] if v == ">>" else [v]
+    if ret[:2] != ["Result", "<"] or ret[-1] != ">":
+        fail("%s: the return type `%s` is not a `Result<…>`" % (where, "".join(tv[i:j])))
+    rty = api_type(ret[2:-1], where + ", return type", API_TVARS[gen])
+    k = j
+    while tv[k] != "{":
+        k += 1
+    if tv[j:k] != [v for _k, v in tokenize(API_WHERE[gen])]:
+        fail("%s: the `where` clause is `%s`, the translation is configured for `%s`" % (where, " ".join(tv[j:k]), API_WHERE[gen]))
+    return params, rty, k
+
+
+class EmitApi:
+    """one default method of `trait DbXxx<KT>` -> a `def` in `ApiM σ` (and the auxiliary functions of its loops)"""
+
+    def __init__(self, rust, lean, where, src, params, rty, sigs):
+        self.rust, self.lean, self.where, self.src, self.params, self.rty, self.sigs = rust, lean, where, src, params, rty, sigs
+        self.env = {}                 # Rust variable -> type tag
+        self.order = []               # … in the order of declaration
+        self.tv = {}                  # bindings of type variables (`Vec::new()` without an annotation)
+        self.tyrefs = []              # types whose Lean text is filled in at the end (`\x01n\x01` in the lines)
+        self.mut = set()              # variables the statements translated so far mutate (`push`, `pop`, `sort…`)
+        self.used = set()             # `ops` / the function parameters of API_EXTRA the statements translated so far use
+        self.aux = []                 # texts of the loop functions
+        self.notes = []
+        self.depth = 0                # nesting depth of loops
+        self.nloop = 0
+        for n, t in params:
+            self.declare(n, t)
+            if rust == "put_from_iter" or t == API_TVARS["<T>"]["T"] and n == "iter":
+                self.notes.append("`%s: T` (`T: Iterator<Item = (KT, Vec<u8>)>`) is the list of its items, in iteration order" % n)
+
+    # ---- types
+    def fresh(self):
+        self.tv[len(self.tv)] = None
+        return ("var", len(self.tv) - 1)
+
+    def res(self, t):
+        if isinstance(t, tuple):
+            if t[0] == "var":
+                return self.res(self.tv[t[1]]) if self.tv[t[1]] is not None else t
+            return (t[0],) + tuple(self.res(x) for x in t[1:])
+        return t
+
+    def unify(self, a, b, what):
+        a, b = self.res(a), self.res(b)
+        if isinstance(a, tuple) and a[0] == "var":
+            if a != b:
+                self.tv[a[1]] = b
+            return
+        if isinstance(b, tuple) and b[0] == "var":
+            self.tv[b[1]] = a
+            return
+        if isinstance(a, tuple) and isinstance(b, tuple) and a[0] == b[0] and len(a) == len(b):
+            for x, y in zip(a[1:], b[1:]):
+                self.unify(x, y, what)
+            return
+        if a != b:
+            fail("%s: %s: type `%s` where `%s` is expected" % (self.where, what, self.show(a), self.show(b)))
+
+    def show(self, t):
+        t = self.res(t)
+        if isinstance(t, tuple):
+            if t[0] == "var":
+                return "_"
+            return {"opt": "Option<%s>", "list": "Vec<%s>", "pair": "(%s, %s)"}[t[0]] % tuple(self.show(x) for x in t[1:])
+        return {"Q": "&Q", "K": "KT", "B": "[u8]", "S": "String", "N": "usize", "U": "()", "Bool": "bool"}[t]
+
+    def lean_ty(self, t):
+        t = self.res(t)
+        if isinstance(t, tuple):
+            if t[0] == "var":
+                fail("%s: the element type of a `Vec::new()` is never determined (no `push`)" % self.where)
+            if t[0] == "pair":
+                a, b = self.lean_ty(t[1]), self.lean_ty(t[2])
+                return "%s × %s" % (io_atom(a) if self.res(t[1])[0:1] == ("pair",) else a, b)
+            return {"opt": "Option ", "list": "List "}[t[0]] + io_atom(self.lean_ty(t[1]))
+        return {"Q": "List Nat", "K": "List Nat", "B": "List Nat", "S": "List Nat", "N": "Nat", "U": "Unit", "Bool": "Bool"}[t]
+
+    def ty(self, t):
+        """placeholder of the Lean text of type `t`"""
+        self.tyrefs.append(t)
+        return "\x01%d\x01" % (len(self.tyrefs) - 1)
+
+    def fill(self, text):
+        return re.sub("\x01(\\d+)\x01", lambda m: self.lean_ty(self.tyrefs[int(m.group(1))]), text)
+
+    # ---- variables
+    def declare(self, v, t):
+        if io_ident(v) in API_RESERVED or v == "self":
+            fail("%s: the variable `%s` collides with a name the translation uses" % (self.where, v))
+        self.env[v] = t
+        if v not in self.order:
+            self.order.append(v)
+
+    def var(self, e, what):
+        if not (e[0] == "path" and len(e[1]) == 1 and e[1][0] in self.env):
+            fail("%s: %s: not a local variable / parameter" % (self.where, what))
+        return e[1][0]
+
+    def scoped(self, binds, f):
+        """run `f` with the variables `binds` [(name, type)] in scope (closure parameters, loop variables)"""
+        saved_env, saved_order = dict(self.env), list(self.order)
+        for n, t in binds:
+            self.declare(n, t)
+        r = f()
+        self.env, self.order = saved_env, saved_order
+        return r
+
+    # ---- pure expressions
+    def ex(self, e):
+        """(Lean text, type tag) of an expression without effects"""
+        k = e[0]
+        if k == "num":
+            return str(e[1]), "N"
+        if k == "path":
+            if len(e[1]) == 1 and e[1][0] in self.env:
+                return io_ident(e[1][0]), self.env[e[1][0]]
+            fail("%s: `%s` is not a local variable / parameter" % (self.where, "::".join(e[1])))
+        if k == "field":
+            t, ty = self.ex(e[1])
+            ty = self.res(ty)
+            if not (isinstance(ty, tuple) and ty[0] == "pair" and e[2] in ("0", "1")):
+                fail("%s: `.%s` on a value of type `%s` (only `.0` / `.1` of a pair)" % (self.where, e[2], self.show(ty)))
+            return "%s.%d" % (io_atom(t), int(e[2]) + 1), ty[1 + int(e[2])]
+        if k == "tuple" and len(e[1]) == 2:
+            (a, ta), (b, tb) = self.ex(e[1][0]), self.ex(e[1][1])
+            return "(%s, %s)" % (a, b), ("pair", ta, tb)
+        if k == "call" and e[1] == ["Vec", "new"] and not e[2]:
+            return "[]", ("list", self.fresh())
+        if k == "mcall":
+            recv, name, args = e[1], e[2], e[3]
+            if (name == "to_string" and not args and recv[0] == "call" and recv[1] == ["String", "from_utf8_lossy"]
+                    and len(recv[2]) == 1):
+                t, ty = self.ex(recv[2][0])
+                self.unify(ty, "B", "the argument of `String::from_utf8_lossy`")
+                self.used.add("lossy")
+                return "lossy %s" % io_atom(t), "S"
+            if name == "collect" and not args:
+                return self.collect(recv)
+            if name == "clone" and not args:
+                return self.ex(recv)
+            if name == "to_vec" and not args:
+                t, ty = self.ex(recv)
+                if not (self.res(ty) == "B" or self.res(ty)[0:1] == ("list",)):
+                    fail("%s: `.to_vec()` on a value of type `%s`" % (self.where, self.show(ty)))
+                return t, ty
+            if name == "as_bytes" and not args:
+                t, ty = self.ex(recv)
+                self.unify(ty, "S", "the receiver of `.as_bytes()`")
+                return t, "B"
+            if name == "map" and len(args) == 1 and args[0][0] == "closure":
+                t, ty = self.ex(recv)
+                ty = self.res(ty)
+                if not (isinstance(ty, tuple) and ty[0] == "opt"):
+                    fail("%s: `.map(|…| …)` on a value of type `%s` (only on an `Option`, or on the `Result` of a call in last "
+                         "position)" % (self.where, self.show(ty)))
+                p, body, bty = self.closure1(args[0], ty[1])
+                return "%s.map fun %s => %s" % (io_atom(t), p, body), ("opt", bty)
+        fail("%s: expression outside the subset of the API wrappers: `%s`" % (self.where, self.rs(e)))
+
+    def closure1(self, c, pty):
+        """`|x| body` with a pure body: (Lean name of x, Lean text of the body, its type)"""
+        if not (len(c[1]) == 1 and c[1][0][0] == "pvar"):
+            fail("%s: a closure that does not have exactly one plain parameter" % self.where)
+        x = c[1][0][1]
+        body, bty = self.scoped([(x, pty)], lambda: self.ex(c[2]))
+        return io_ident(x), body, bty
+
+    def collect(self, r):
+        """`<r>.collect()`"""
+        if r[0] == "mcall" and r[2] == "map" and len(r[3]) == 1 and r[3][0][0] == "closure":
+            c, src = r[3][0], r[1]
+            if src[0] == "mcall" and src[2] == "enumerate" and not src[3] and src[1][0] == "mcall" and src[1][2] == "iter" \
+                    and not src[1][3]:
+                # `xs.iter().enumerate().map(|(i, &a)| (i, a)).collect()`
+                ps = c[1]
+                if not (len(ps) == 1 and ps[0][0] == "ptuple" and [p[0] for p in ps[0][1]] == ["pvar", "pvar"]
+                        and c[2] == ("tuple", [("path", [ps[0][1][0][1]]), ("path", [ps[0][1][1][1]])])):
+                    fail("%s: the closure after `.iter().enumerate()` is not `|(i, &a)| (i, a)`" % self.where)
+                t, ty = self.ex(src[1][1])
+                ty = self.res(ty)
+                if not (isinstance(ty, tuple) and ty[0] == "list"):
+                    fail("%s: `.iter().enumerate()` on a value of type `%s`" % (self.where, self.show(ty)))
+                return "ApiM.enumerate %s" % io_atom(t), ("list", ("pair", "N", ty[1]))
+            if src[0] == "mcall" and src[2] == "iter" and not src[3]:
+                # `xs.iter().map(|a| e).collect()`
+                t, ty = self.ex(src[1])
+                ty = self.res(ty)
+                if not (isinstance(ty, tuple) and ty[0] == "list"):
+                    fail("%s: `.iter().map(…)` on a value of type `%s`" % (self.where, self.show(ty)))
+                p, body, bty = self.closure1(c, ty[1])
+                return "%s.map fun %s => %s" % (io_atom(t), p, body), ("list", bty)
+        fail("%s: `.collect()` of something else than `xs.iter().enumerate().map(|(i, &a)| (i, a))` / `xs.iter().map(|a| …)`"
+             % self.where)
+
+    def rs(self, e):
+        """a rough Rust rendering for error messages"""
+        k = e[0]
+        if k == "path":
+            return "::".join(e[1])
+        if k == "num":
+            return str(e[1])
+        if k == "field":
+            return "%s.%s" % (self.rs(e[1]), e[2])
+        if k == "mcall":
+            return "%s.%s(%s)" % (self.rs(e[1]), e[2], ", ".join(self.rs(a) for a in e[3]))
+        if k == "call":
+            return "%s(%s)" % ("::".join(e[1]), ", ".join(self.rs(a) for a in e[2]))
+        if k == "tuple":
+            return "(%s)" % ", ".join(self.rs(a) for a in e[1])
+        if k == "try":
+            return self.rs(e[1]) + "?"
+        if k == "closure":
+            return "|…| " + self.rs(e[2])
+        return "<%s>" % k
+
+    # ---- calls with a `Result`
+    def is_self_call(self, e):
+        return e[0] == "mcall" and e[1] == ("path", ["self"])
+
+    def call(self, e):
+        """`self.m(args)` with `m` an object-safe call or a default method translated before: (Lean text, type of the `Ok`)"""
+        name = e[2]
+        if name in API_PRIMS:
+            fld, _decl, ptys, rty = API_PRIMS[name]
+            head, extra = "ops.%s" % fld, []
+            self.used.add("ops")
+        elif name in self.sigs:
+            lean, ptys, rty, extra = self.sigs[name]
+            head = "%s ops" % lean
+            self.used.add("ops")
+            self.used.update(extra)
+        else:
+            fail("%s: call of `self.%s`: neither one of `get_kt`, `put_kt`, `del_kt`, `includes_key_kt` nor a default method of "
+                 "the trait that is translated before this one" % (self.where, name))
+        if len(e[3]) != len(ptys):
+            fail("%s: `self.%s` with %d arguments" % (self.where, name, len(e[3])))
+        args = []
+        for a, pt in zip(e[3], ptys):
+            t, ty = self.ex(a)
+            self.unify(ty, pt, "argument `%s` of `self.%s`" % (self.rs(a), name))
+            args.append(io_atom(t))
+        return " ".join([head] + extra + args), rty
+
+    # ---- statements
+    def sorter(self, v, name, c):
+        """`v.sort_by(c)` / `v.sort_unstable_by(c)`: the Lean function that sorts"""
+        ety = self.res(self.env[v])
+        if not (isinstance(ety, tuple) and ety[0] == "list" and isinstance(self.res(ety[1]), tuple) and self.res(ety[1])[0] == "pair"):
+            fail("%s: `%s.%s(..)` on a value of type `%s` (only a vector of pairs)" % (self.where, v, name, self.show(ety)))
+        pair = self.res(ety[1])
+        ps = c[1]
+        if not (c[0] == "closure" and len(ps) == 2 and ps[0][0] == "pvar" and ps[1][0] == "pvar" and c[2][0] == "mcall"
+                and c[2][2] == "cmp" and len(c[2][3]) == 1 and c[2][1][0] == "field" and c[2][3][0][0] == "field"
+                and c[2][1][2] == c[2][3][0][2] and c[2][1][2] in ("0", "1")
+                and c[2][1][1][0] == "path" and c[2][3][0][1][0] == "path"):
+            fail("%s: the comparison of `%s.%s(..)` is not `|a, b| x.F.cmp(y.F)` with `x`, `y` the two parameters and `F` = 0 / 1"
+                 % (self.where, v, name))
+        a, b, f = ps[0][1], ps[1][1], int(c[2][1][2])
+        lhs, rhs = c[2][1][1][1], c[2][3][0][1][1]
+        fty = pair[1 + f]
+        if [lhs, rhs] == [[b], [a]] and fty == "Q":
+            # descending by key: a function parameter, of which only `Perm` is assumed
+            other = pair[2 - f]
+            pname = "sortDesc" if (f == 1 and other == "N") else ("sortDescPairs" if (f == 0 and other in ("B", "S")) else None)
+            if pname is None:
+                fail("%s: `%s.%s(..)`: descending by key on a vector of `%s`" % (self.where, v, name, self.show(pair)))
+            self.used.add(pname)
+            self.notes.append("`%s.%s(|%s, %s| %s.%d.cmp(%s.%d))` (descending by key, %s; the following `while let Some(_) = %s.pop()` "
+                              "takes the keys in ascending order) is the parameter `%s`: of the sort only `∀ l, (%s l).Perm l` is "
+                              "assumed (no property of the map depends on the processing order)"
+                              % (v, name, a, b, b, f, a, f, "stable" if name == "sort_by" else "not stable", v, pname, pname))
+            return pname
+        if [lhs, rhs] == [[a], [b]] and fty == "N" and f == 0 and name == "sort_by":
+            self.notes.append("`%s.sort_by(|%s, %s| %s.0.cmp(&(%s.0)))` (stable, ascending by the remembered index) is "
+                              "`ApiM.sortByIdx`" % (v, a, b, a, b))
+            return "ApiM.sortByIdx"
+        fail("%s: `%s.%s(..)` is neither the descending sort by key (`|a, b| b.F.cmp(a.F)`, `F` the key) nor the stable ascending "
+             "sort by index (`sort_by(|a, b| a.0.cmp(&(b.0)))`)" % (self.where, v, name))
+
+    def stmts(self, sts, tail):
+        """do-items of the statements `sts` (`tail`: what follows them in their block, for the `_` of unused loop results)"""
+        out = []
+        for n, st in enumerate(sts):
+            later = (sts[n + 1:], tail)
+            k = st[0]
+            if k == "let":
+                out += self.let(st)
+            elif k == "expr" and st[1][0] == "try":
+                if not self.is_self_call(st[1][1]):
+                    fail("%s: `%s;`: not a call `self.m(..)?`" % (self.where, self.rs(st[1])))
+                t, ty = self.call(st[1][1])
+                self.unify(ty, "U", "the value of the statement `%s;`" % self.rs(st[1]))
+                out.append(t)
+            elif k == "expr" and st[1][0] == "mcall" and st[1][2] == "push" and len(st[1][3]) == 1:
+                v = self.var(st[1][1], "the receiver of `.push(..)`")
+                t, ty = self.ex(st[1][3][0])
+                self.unify(self.env[v], ("list", ty), "`%s.push(%s)`" % (v, self.rs(st[1][3][0])))
+                self.mut.add(v)
+                out.append("let %s := %s ++ [%s]" % (io_ident(v), io_ident(v), t))
+            elif k == "expr" and st[1][0] == "mcall" and st[1][2] in ("sort_by", "sort_unstable_by") and len(st[1][3]) == 1:
+                v = self.var(st[1][1], "the receiver of `.%s(..)`" % st[1][2])
+                f = self.sorter(v, st[1][2], st[1][3][0])
+                self.mut.add(v)
+                out.append("let %s := %s %s" % (io_ident(v), f, io_ident(v)))
+            elif k == "whilelet":
+                out += self.loop(st, later, True)
+            elif k == "for":
+                out += self.loop(st, later, False)
+            else:
+                fail("%s: statement outside the subset of the API wrappers (`let`, `self.m(..)?;`, `v.push(e);`, `v.sort_by(..);` / "
+                     "`v.sort_unstable_by(..);`, `while let Some(x) = v.pop() { … }`, `for p in v { … }`): %s"
+                     % (self.where, self.rs(st[1]) if k == "expr" else "`%s`" % k))
+        return out
+
+    def let(self, st):
+        _k, pat, ann, e, _mut = st
+        if pat[0] != "pvar":
+            fail("%s: `let` with a pattern" % self.where)
+        v = pat[1]
+        if e[0] == "call" and e[1] == ["From", "from"] and len(e[2]) == 1:
+            # `let key_kt: KT = From::from(key);`
+            if ann != "KT":
+                fail("%s: `let %s = From::from(..)` without the annotation `: KT`" % (self.where, v))
+            t, ty = self.ex(e[2][0])
+            if not (e[2][0][0] == "path" and self.res(ty) == "Q" and e[2][0][1][0] in [p for p, _t in self.params]):
+                fail("%s: the argument of `From::from` is not a parameter of type `&'a Q`" % self.where)
+            self.notes.append("`let %s: KT = From::from(%s);` (`KT: From<&'a Q>`) is the identity: a key, borrowed or converted, "
+                              "is its bytes" % (v, t))
+            self.declare(v, "K")
+            return ["let %s : %s := %s" % (io_ident(v), self.ty("K"), t)]
+        if e[0] == "try":
+            if not self.is_self_call(e[1]):
+                fail("%s: `let %s = %s;`: not a call `self.m(..)?`" % (self.where, v, self.rs(e)))
+            t, ty = self.call(e[1])
+            if ann is not None:
+                self.unify(ty, api_type(ann, self.where, {}), "the annotation of `let %s`" % v)
+            self.declare(v, ty)
+            return ["let %s ← %s" % (io_ident(v), t)]
+        if self.is_self_call(e):
+            fail("%s: `let %s = %s;`: the `Result` of a call bound without `?`" % (self.where, v, self.rs(e)))
+        t, ty = self.ex(e)
+        if ann is not None:
+            self.unify(ty, api_type(ann, self.where, {}), "the annotation of `let %s`" % v)
+        self.declare(v, ty)
+        return ["let %s : %s := %s" % (io_ident(v), self.ty(ty), t)]
+
+    def loop(self, st, later, is_pop):
+        """`while let Some(x) = v.pop() { … }` (a function recursive on fuel: every round removes one element) /
+        `for p in v { … }` (a function structurally recursive on the list), over the variables the body mutates"""
+        if is_pop:
+            _k, pat, scrut, body = st
+            if not (pat[0] == "pctor" and pat[1] == "Some" and len(pat[2]) == 1 and pat[2][0][0] == "pvar"
+                    and scrut[0] == "mcall" and scrut[2] == "pop" and not scrut[3]):
+                fail("%s: a `while let` that is not `while let Some(x) = v.pop()`" % self.where)
+            v = self.var(scrut[1], "the receiver of `.pop()`")
+            lty = self.res(self.env[v])
+            if not (isinstance(lty, tuple) and lty[0] == "list"):
+                fail("%s: `%s.pop()` on a value of type `%s`" % (self.where, v, self.show(lty)))
+            binds = [(pat[2][0][1], lty[1])]
+        else:
+            _k, pat, it, body = st
+            v = self.var(it, "what a `for` iterates over")
+            lty = self.res(self.env[v])
+            if not (isinstance(lty, tuple) and lty[0] == "list"):
+                fail("%s: `for … in %s` over a value of type `%s`" % (self.where, v, self.show(lty)))
+            ety = self.res(lty[1])
+            if pat[0] == "pvar":
+                binds, lpat = [(pat[1], ety)], io_ident(pat[1])
+            elif (pat[0] == "ptuple" and [p[0] for p in pat[1]] == ["pvar", "pvar"] and isinstance(ety, tuple) and ety[0] == "pair"):
+                binds = [(pat[1][0][1], ety[1]), (pat[1][1][1], ety[2])]
+                lpat = "(%s, %s)" % (io_ident(pat[1][0][1]), io_ident(pat[1][1][1]))
+            else:
+                fail("%s: the pattern of `for … in %s` does not fit the element type `%s`" % (self.where, v, self.show(ety)))
+        if body[2] is not None:
+            fail("%s: a loop body with a value" % self.where)
+        for n in io_walk(body):
+            if (n[0] in ("return", "returnx")) or (n[0] == "path" and n[1] in (["break"], ["continue"])):
+                fail("%s: `return` / `break` / `continue` inside a loop" % self.where)
+        outer = list(self.order)
+        saved_mut, saved_used = self.mut, self.used
+        self.mut, self.used = set(), set()
+        self.depth += 1
+        lines = self.scoped(binds, lambda: self.stmts(body[1], None))
+        self.depth -= 1
+        body_mut, body_used = self.mut, self.used
+        if is_pop:
+            body_mut.add(v)
+        elif v in body_mut:
+            fail("%s: the loop over `%s` mutates it" % (self.where, v))
+        for b, _t in binds:
+            body_mut.discard(b)
+        state = [x for x in outer if x in body_mut]
+        if [x for x in body_mut if x not in outer]:
+            fail("%s: internal: a loop mutates a variable declared inside it" % self.where)
+        ro = [x for x in outer if x not in state and x != v and io_mentions_var(body, x)]
+        self.mut, self.used = saved_mut | set(state), saved_used | body_used
+        self.nloop += 1
+        name = "%sLoop%s" % (self.lean, "" if self.nloop == 1 else str(self.nloop))
+        ctx = (["(ops : KtOps σ)"] if "ops" in body_used else []) + \
+              ["(%s : %s)" % (x, t) for x, t in API_EXTRA if x in body_used] + \
+              ["(%s : %s)" % (io_ident(x), self.ty(self.env[x])) for x in ro]
+        ctx_args = (["ops"] if "ops" in body_used else []) + [x for x, _t in API_EXTRA if x in body_used] + [io_ident(x) for x in ro]
+        svars = [io_ident(x) for x in state]
+        stys = [self.ty(self.env[x]) for x in state]
+        rty = "Unit" if not state else " × ".join(
+            ("(%s)" % t) if (len(state) > 1 and self.res(self.env[x])[0:1] == ("pair",)) else t for x, t in zip(state, stys))
+        rval = "()" if not state else (svars[0] if len(state) == 1 else "(%s)" % ", ".join(svars))
+        rec = " ".join([name] + ctx_args)
+        if is_pop:
+            x = io_ident(binds[0][0])
+            text = ["def %s {σ : Type} %s: Nat → %s → ApiM σ %s" % (name, "".join(c + " " for c in ctx), " → ".join(stys), io_atom(rty)),
+                    "  | 0%s => ApiM.fail" % "".join(", _" for _ in state),
+                    "  | fuel + 1, %s =>" % ", ".join(svars),
+                    "    match ApiM.pop %s with" % io_ident(v),
+                    "    | some (%s, %s) => do" % (x, io_ident(v))] + ind(lines, 6) + \
+                   ["      %s fuel %s" % (rec, " ".join(svars)),
+                    "    | none => pure %s" % rval]
+            doc = ("/-- the loop `while let Some(%s) = %s.pop() { … }` of `%s`: `ApiM.pop` takes the LAST element; every round removes one "
+                   "element, the caller passes the fuel `%s.length + 1` (`fuel = 0` is never reached; it is `ApiM.fail`); value: the "
+                   "variables the body assigns (%s) -/" % (binds[0][0], v, self.rust, io_ident(v), ", ".join("`%s`" % s for s in state)))
+            callee = "%s (%s.length + 1) %s" % (rec, io_ident(v), " ".join(svars))
+        else:
+            text = ["def %s {σ : Type} %s: %s → ApiM σ %s" % (name, "".join(c + " " for c in ctx),
+                                                         " → ".join([self.ty(lty)] + stys), io_atom(rty)),
+                    "  | []%s => pure %s" % ("".join(", " + s for s in svars), rval),
+                    "  | %s :: loopRest%s => do" % (lpat, "".join(", " + s for s in svars))] + ind(lines, 4) + \
+                   ["    %s" % " ".join([rec, "loopRest"] + svars)]
+            doc = ("/-- the loop `for … in %s { … }` of `%s`, in the order of the elements; structurally recursive on the list; value: "
+                   "the variables the body assigns (%s) -/" % (v, self.rust, ", ".join("`%s`" % s for s in state) or "none"))
+            callee = " ".join([rec, io_ident(v)] + svars)
+        self.aux.append(doc + "\n" + "\n".join(text) + "\n")
+        if not state:
+            return [callee]
+        live = [self.depth > 0 or io_mentions_var(later, x) for x in state]
+        names = [s if l else "_" for s, l in zip(svars, live)]
+        return ["let %s ← %s" % (names[0] if len(names) == 1 else "(%s)" % ", ".join(names), callee)]
+
+    def tail(self, e):
+        """the value of the function body, of type `Result<rty>`: do-items"""
+        if e is None:
+            fail("%s: the body has no value" % self.where)
+        if e[0] == "call" and e[1] == ["Ok"] and len(e[2]) == 1:
+            if e[2][0] == ("tuple", []):
+                self.unify("U", self.rty, "the value `Ok(())`")
+                return ["pure ()"]
+            t, ty = self.ex(e[2][0])
+            self.unify(ty, self.rty, "the value `Ok(%s)`" % self.rs(e[2][0]))
+            return ["pure %s" % io_atom(t)]
+        if self.is_self_call(e):
+            t, ty = self.call(e)
+            self.unify(ty, self.rty, "the value `%s`" % self.rs(e))
+            return [t]
+        if e[0] == "mcall" and e[2] == "map" and len(e[3]) == 1 and e[3][0][0] == "closure" and self.is_self_call(e[1]):
+            # `self.m(..).map(|x| e)` on the `Result`: bind + pure
+            t, ty = self.call(e[1])
+            c = e[3][0]
+            p, body, bty = self.closure1(c, ty)
+            self.unify(bty, self.rty, "the value `%s`" % self.rs(e))
+            return ["let %s ← %s" % (p, t), "pure %s" % io_atom(body)]
+        fail("%s: the value of the body is none of `Ok(e)`, `self.m(..)`, `self.m(..).map(|x| e)`: `%s`" % (self.where, self.rs(e)))
+
+    def function(self, body):
+        lines = self.stmts(body[1], body[2]) + self.tail(body[2])
+        extra = [x for x, _t in API_EXTRA if x in self.used]
+        ps = ["(ops : KtOps σ)"] + ["(%s : %s)" % (x, t) for x, t in API_EXTRA if x in self.used] + \
+             ["(%s : %s)" % (io_ident(n), self.lean_ty(t)) for n, t in self.params]
+        doc = "/-- %s, `fn %s`%s -/" % (self.src, self.rust, ("; " + "; ".join(dict.fromkeys(self.notes))) if self.notes else "")
+        text = "%s\ndef %s {σ : Type} %s : ApiM σ %s := do\n%s\n" % (
+            doc, self.lean, " ".join(ps), io_atom(self.lean_ty(self.rty)), "\n".join(ind(lines)))
+        return [self.fill(a) for a in self.aux] + [self.fill(text)], extra
+
+
+def emit_apiops(repo, feats, out, methods):
+    # ---- what the calls mean: the four object-safe declarations; nobody overrides a default method
+    decl = io_find_methods(repo, feats, API_LIB, API_OBJSAFE)
+    if sorted(decl) != sorted(API_PRIMS):
+        fail("%s::<%s>: the methods are %s, the translation is configured for %s" % (API_LIB, API_OBJSAFE, sorted(decl), sorted(API_PRIMS)))
+    for name, (_fld, want, _p, _r) in API_PRIMS.items():
+        got = [v for _k, v in decl[name][0][0]] if len(decl[name]) == 1 else None
+        if got != [v for _k, v in tokenize(want)]:
+            fail("%s::<%s>::%s is `%s`, the translation is configured for `%s`" % (API_LIB, API_OBJSAFE, name, " ".join(got or ["?"]), want))
+    io_pin_tokens(repo, API_DBMAP, "impl<KT: DbMapKeyType> DbXxx<KT> for FileDbMap<KT>",
+                  "impl<KT: DbMapKeyType> DbXxx<KT> for FileDbMap<KT> {}",
+                  "the implementation of `DbXxx<KT>` for the map handle (it must not override a default method)")
+    impls = []
+    for d, _ds, fs in sorted(os.walk(os.path.join(repo, "src"))):
+        for f in sorted(fs):
+            if f.endswith(".rs"):
+                txt = strip_comments(open(os.path.join(d, f)).read())
+                impls += [os.path.relpath(os.path.join(d, f), repo) for _m in re.finditer(r"\bimpl\b[^{;]*\bDbXxx\s*<[^{;]*\bfor\b", txt)]
+    if impls != [API_DBMAP]:
+        fail("implementations of `DbXxx<KT>` in %s: exactly one is expected, the (empty) one in %s" % (impls, API_DBMAP))
+    found = io_find_methods(repo, feats, API_LIB, API_TRAIT)
+    if sorted(found) != sorted(r for r, _l in API_FUNCS):
+        fail("%s::<%s>: the default methods are %s, the translation is configured for %s"
+             % (API_LIB, API_TRAIT, sorted(found), sorted(r for r, _l in API_FUNCS)))
+    sigs, texts, listing = {}, [], []
+    for rust, lean in API_FUNCS:
+        where = "%s::<%s>::%s" % (API_LIB, API_TRAIT, rust)
+        if len(found[rust]) != 1:
+            fail("%s: %d definitions with a true `#[cfg]` (exactly one expected)" % (where, len(found[rust])))
+        toks, blockdesc = found[rust][0]
+        params, rty, ib = api_parse_sig(toks, where)
+        pp = P(toks[ib:], feats, where)
+        pp.keep_try = True
+        pp.api = True
+        body = pp.block()
+        if pp.i != len(toks) - ib or pp.dropped or pp.kept:
+            fail("%s: tokens after the body / `#[cfg]` statements" % where)
+        em = EmitApi(rust, lean, where, "%s %s" % (API_LIB, blockdesc), params, rty, sigs)
+        ts, extra = em.function(body)
+        texts += ts
+        sigs[rust] = (lean, [t for _n, t in params], rty, extra)
+        listing.append(lean)
+    with open(os.path.join(out, "ApiOps.lean"), "w") as fh:
+        fh.write("import Abyss.ApiM\n")
+        fh.write(API_HEADER)
+        fh.write("namespace Abyss.Gen\nopen Abyss (ApiM KtOps)\n\n")
+        fh.write("\n".join(texts))
+        fh.write("\nend Abyss.Gen\n")
+    return len(texts)
+
+
+API_HEADER = """/-! GENERATED by tools/rs2lean.py from /repo — do not edit.
+The generic API wrappers: the default methods of `trait DbXxx<KT>` (src/lib.rs: `get`, `put`, `delete`, `includes_key`,
+`bulk_get`, `bulk_put`, `bulk_delete`, `put_from_iter` and the `…_string` variants) as functions in `Abyss.ApiM σ`
+(Abyss/ApiM.lean): state = the map, of an ABSTRACT type `σ`; failure = `Err`.  Checked on every run: the four
+declarations of `trait DbXxxObjectSafe<KT>`, and that `impl<KT: DbMapKeyType> DbXxx<KT> for FileDbMap<KT> {}` is empty
+(the map handle overrides no default method).  Statement by statement:
+
+* `self.get_kt(..)` / `self.put_kt(..)` / `self.del_kt(..)` / `self.includes_key_kt(..)` are the fields of the parameter
+  `ops : KtOps σ`; `self.m(..)` with `m` a default method of the trait is the function translated from it (with the
+  function parameters it needs).  `call?` is the bind of the monad, `Ok(e)` is `pure e`, `call.map(|x| e)` on the `Result`
+  of a call in last position is bind + `pure e`.
+* keys are bytes: a parameter `key: &'a Q` (signature `fn m<'a, Q>(..) where KT: From<&'a Q>, Q: Ord + ?Sized`, pinned) is
+  the byte list of the key; `let key_kt: KT = From::from(key);` is the identity (the conversion of a borrowed key into the
+  key type of the map does not change the bytes the map stores: `Abyss/Gen/Funcs.lean` has the conversions of the integer
+  key types; the callers of the generated functions pass the converted bytes).  `&[u8]` / `Vec<u8>` are `List Nat`; a
+  `String` / `&str` is its UTF-8 bytes (`List Nat`): `.as_bytes()`, `.clone()`, `.to_vec()` are the identity.
+  `String::from_utf8_lossy(&v).to_string()` is the parameter `lossy : List Nat → List Nat` (uninterpreted: the UTF-8
+  bytes of the lossy decoding of `v`).
+* `Vec<T>` / `&[T]` is `List T`, `(A, B)` a pair, `usize` is `Nat`, `Option` is `Option` (`o.map(|x| e)` is `o.map fun x => e`).
+  `Vec::new()` is `[]`, `v.push(e);` re-binds `v := v ++ [e]`, `xs.iter().enumerate().map(|(i, &a)| (i, a)).collect()` is
+  `ApiM.enumerate xs`, `xs.iter().map(|a| e).collect()` is `xs.map fun a => e`.
+* sorting.  `v.sort_by(|a, b| b.F.cmp(a.F))` / `v.sort_unstable_by(..)` with `F` the key component (descending by key; the
+  `pop` loop that follows takes the keys in ascending order) is a call of a PARAMETER of the generated function:
+  `sortDesc` on (index, key) pairs, `sortDescPairs` on (key, value) pairs.  The only property the theorems may assume of it
+  is `∀ l, (sortDesc l).Perm l` (the order `Q: Ord` of the borrowed key type is not modelled, and `sort_unstable_by` does
+  not fix the order of equal keys).  `result.sort_by(|a, b| a.0.cmp(&(b.0)))` (stable, by the remembered index) is
+  `ApiM.sortByIdx` (insertion sort by the first component).
+* `while let Some(x) = v.pop() { … }` is an auxiliary function `<name>Loop`, recursive on fuel, over the variables the
+  body assigns: `ApiM.pop v` is the LAST element of `v` and the rest; the caller passes the fuel `v.length + 1`.
+  `for p in v { … }` is an auxiliary function structurally recursive on the list (iteration order = list order;
+  `put_from_iter`'s `iter: T`, `T: Iterator<Item = (KT, Vec<u8>)>`, is the list of its items).
+-/
+"""
+
 STAGE = "funcs"
 
 
@@ -5671,8 +6528,10 @@ def main():
     n_eng = emit_engine(repo, feats, out, done, methods)
     STAGE = "flush"
     n_fl = emit_flushops(repo, feats, out, done, methods)
-    print("rs2lean: wrote %d constants, %d functions, %d file operations, %d engine functions, %d flush definitions (features: %s)"
-          % (len(C), len(F), n_io, n_eng, n_fl, ",".join(sorted(feats))))
+    STAGE = "api"
+    n_api = emit_apiops(repo, feats, out, methods)
+    print("rs2lean: wrote %d constants, %d functions, %d file operations, %d engine functions, %d flush definitions, "
+          "%d API definitions (features: %s)" % (len(C), len(F), n_io, n_eng, n_fl, n_api, ",".join(sorted(feats))))
 
 
 if __name__ == "__main__":
@@ -5683,11 +6542,12 @@ if __name__ == "__main__":
         # nothing was emitted; a Funcs.lean left over from an earlier run must not be mistaken for
         # the translation of this source: replace it by a file that fails to build with the reason
         # (a failure in the FileOps stage leaves the Consts.lean / Funcs.lean just written in place, a failure
-        # in the Engine stage also the FileOps.lean)
+        # in the Engine stage also the FileOps.lean, … in the last stage, ApiOps.lean, all the others)
         if len(sys.argv) > 2 and os.path.isdir(sys.argv[2]):
             msg = ("rs2lean: UNSUPPORTED: %s" % e).replace("\\", "\\\\").replace('"', '\\"').replace("\n", " ")
             for name in (["Funcs.lean"] if STAGE == "funcs" else []) + (["FileOps.lean"] if STAGE in ("funcs", "fileops") else []) + \
-                    (["Engine.lean"] if STAGE != "flush" else []) + ["FlushOps.lean"]:
+                    (["Engine.lean"] if STAGE in ("funcs", "fileops", "engine") else []) + \
+                    (["FlushOps.lean"] if STAGE != "api" else []) + ["ApiOps.lean"]:
                 with open(os.path.join(sys.argv[2], name), "w") as fh:
                     fh.write("/-! GENERATED by tools/rs2lean.py — the translation FAILED, nothing was emitted. -/\n")
                     fh.write('#eval (throw (IO.userError "%s") : IO Unit)\n' % msg)
